@@ -23,7 +23,8 @@ InUnit(v) == \A i \in 1..Len(v) : v[i] >= 0 /\ v[i] <= ONE
 \*  "rtf"    rgb (scaled), hsl, back, panic, gray (r = g = b exactly): float round trip of an in-range RGB colour
 \*  "hslf"   hsl (scaled), rgb, panic: in-range HSL to RGB
 \*  "hue01"  rgb0, rgb1: hsl(0, s, l) and hsl(1, s, l) converted
-\*  "pack"   bytes r g b a; words as <<hi16, lo16>>: rgb_u32, rgba_u32, argb_u32; to_rgba / to_rgb channels
+\*  "pack"   bytes r g b a; words as <<hi16, lo16>>: rgb_u32, rgba_u32, argb_u32; to_rgba / to_rgb channels;
+\*           hsla = to_hsla(), hsla_back = to_hsla().to_rgba(), float: fa_same (alpha bits kept), fdiff (max channel error)
 \*  "tou8"   x (scaled, clamped to +-2^30), cls (0 finite, 1 nan), res
 \*  "satadd" c, d, res
 Allowed(e) ==
@@ -41,6 +42,12 @@ Allowed(e) ==
          /\ e.rgba_u32 = <<e.r * 256 + e.g, e.b * 256 + e.a>>          \* 0xRRGGBBAA
          /\ e.argb_u32 = <<e.a * 256 + e.r, e.g * 256 + e.b>>          \* 0xAARRGGBB
          /\ e.to_rgba = <<e.r, e.g, e.b, 255>> /\ e.to_rgb = <<e.r, e.g, e.b>>
+         \* RGBA <-> HSLA: alpha is kept unchanged both ways, the colour channels convert like the
+         \* three-channel colours (hsla3 = 1: bit for bit) and come back within 8/255 (float: 1e-4)
+         /\ e.hsla[4] = e.a /\ e.hsla3 = 1
+         /\ e.hsla_back[4] = e.a
+         /\ \A i \in 1..3 : Abs(e.hsla_back[i] - <<e.r, e.g, e.b>>[i]) <= 8
+         /\ e.fa_same = 1 /\ e.fdiff <= TolF
     [] e.op = "tou8" ->
          IF e.cls = 1 THEN e.res \in 0..255
          ELSE IF e.x <= 0 THEN e.res = 0
